@@ -68,6 +68,7 @@ AttemptOK(m) == /\ m.att.sock
 AttemptFails(m) == ~m.att.sock \/ (m.adv /\ (m.att.get = "fail" \/ m.att.set = "other"))
 OnDDial(m, e) ==      \* one dial attempt returned e.res at e.t (k > 0 iff ok)
   LET m1 == IF m.retAt # -1 THEN DFlag(m, "c10-dial-after-return")
+            ELSE IF e.res = "nilctx" THEN DFlag(m, "c11-dial-returned-neither-a-connection-nor-an-error")
             ELSE IF e.res = "ok" /\ m.adv /\ m.att.sock /\ m.att.set = "none" /\ m.att.get # "fail"
                  THEN DFlag(m, "c11-connection-opened-without-disabling-autoconf")
             ELSE IF (e.res = "ok" /\ AttemptFails(m)) \/ (e.res # "ok" /\ AttemptOK(m))
